@@ -180,7 +180,7 @@ func runBnd(p bndProg, hc *hullCtx, coll *collector, incs func(head int, back []
 		for _, in := range ins {
 			var cs []string
 			for k, v := range in.vals {
-				if v.isConst() && (live == nil || live[k]) && !strings.HasPrefix(k, "$") {
+				if v.isConst() && (live == nil || live[k]) && !strings.HasPrefix(k, "$") && !strings.HasPrefix(k, "fld:") {
 					cs = append(cs, k+"="+v.k.String())
 				}
 			}
@@ -265,6 +265,42 @@ func runBnd(p bndProg, hc *hullCtx, coll *collector, incs func(head int, back []
 			exec(b, mergeJoin(b, ins), check)
 		}
 	}
+	// refineExits: the states leaving the loop through the head's exit edges are
+	// recomputed from the individual incoming states (the entry states and the
+	// back-edge states) instead of from their hull. Every concrete state at the
+	// head lies in one of them, so this is sound, and it keeps apart "the loop
+	// never ran" from "it ran at least once", which a convex hull cannot.
+	refineExits := func(h int) {
+		succs := p.succs(h)
+		var exits []int
+		for k, s := range succs {
+			if !body[h][s] {
+				exits = append(exits, k)
+			}
+		}
+		if len(exits) == 0 || edgeOut[h] == nil {
+			return
+		}
+		ins := inStates(h)
+		if len(ins) == 0 {
+			return
+		}
+		ins = mergeJoin(h, ins) // bounded: partitioned by predecessor and constant signature
+		coll := make(map[int][]*AbsState)
+		for _, in := range ins {
+			o := p.transfer(h, in.clone(), false)
+			for _, k := range exits {
+				if k < len(o) {
+					coll[k] = append(coll[k], o[k]...)
+				}
+			}
+		}
+		for _, k := range exits {
+			if k < len(edgeOut[h]) {
+				edgeOut[h][k] = coll[k]
+			}
+		}
+	}
 	stabilize = func(h int, check bool) {
 		loop := regionOf(h)
 		if !check {
@@ -293,9 +329,11 @@ func runBnd(p bndProg, hc *hullCtx, coll *collector, incs func(head int, back []
 			if check {
 				exec(h, []*AbsState{st}, true)
 				runRegion(loop, h, true)
+				refineExits(h)
 				return
 			}
 			if iter > 0 && hc.heads[h].sig() == before {
+				refineExits(h)
 				return
 			}
 			exec(h, []*AbsState{st}, false)
